@@ -2,3 +2,114 @@
 From Coq Require Import List Arith ZArith Bool Lia.
 From IPC Require Import K Prog Ideal Api KProofs IdealProofs.
 Import ListNotations.
+
+(* ------------------------------------------------------------------------------------------ *)
+(* 0. small tools                                                                               *)
+(* ------------------------------------------------------------------------------------------ *)
+Definition aobj_of (r : ref) : aobj := match r with RS c => OS c | RR c => OR c | RM o => OM o end.
+Definition akind_of (r : ref) : akind := match r with RS _ => HTx | RR _ => HRx | RM _ => HMem end.
+
+(* closed form of a_install *)
+Lemma a_install_shape : forall rs hs n,
+  a_install hs n rs =
+  (hs ++ combine (seq n (length rs)) (map aobj_of rs), n + length rs,
+   combine (map akind_of rs) (seq n (length rs))).
+Proof.
+  induction rs as [|[c|c|o] t IH]; intros hs n; cbn [a_install].
+  - cbn [length seq map combine]. rewrite app_nil_r, Nat.add_0_r. reflexivity.
+  - rewrite IH. cbn [length seq map combine aobj_of akind_of]. rewrite <- app_assoc. cbn [app].
+    rewrite Nat.add_succ_r. reflexivity.
+  - rewrite IH. cbn [length seq map combine aobj_of akind_of]. rewrite <- app_assoc. cbn [app].
+    rewrite Nat.add_succ_r. reflexivity.
+  - rewrite IH. cbn [length seq map combine aobj_of akind_of]. rewrite <- app_assoc. cbn [app].
+    rewrite Nat.add_succ_r. reflexivity.
+Qed.
+
+Ltac step_cases :=
+  repeat match goal with
+         | |- context [match ?x with _ => _ end] => destruct x eqn:?
+         end.
+
+(* ------------------------------------------------------------------------------------------ *)
+(* T3. regions never change                                                                     *)
+(* ------------------------------------------------------------------------------------------ *)
+Lemma a_step_amem : forall s o,
+  amem (fst (a_step s o)) = amem s \/ exists x, amem (fst (a_step s o)) = amem s ++ [x].
+Proof.
+  intros s o. destruct o; cbn [a_step]; step_cases; cbn [fst amem]; eauto.
+Qed.
+
+Lemma a_run_cons : forall s o r,
+  a_run s (o :: r) = (fst (a_run (fst (a_step s o)) r), snd (a_step s o) :: snd (a_run (fst (a_step s o)) r)).
+Proof.
+  intros s o r. cbn [a_run]. destruct (a_step s o) as [s' out]. cbn [fst snd].
+  destruct (a_run s' r) as [s'' outs]. reflexivity.
+Qed.
+
+Theorem region_content_stable : forall ops s o v,
+  nth_error (amem s) o = Some v -> nth_error (amem (fst (a_run s ops))) o = Some v.
+Proof.
+  induction ops as [|op r IH]; intros s o v H; [exact H|].
+  rewrite a_run_cons. cbn [fst]. apply IH.
+  destruct (a_step_amem s op) as [E|[x E]]; rewrite E; auto.
+  rewrite nth_error_app1; auto. eapply nth_error_lt; eauto.
+Qed.
+Print Assumptions region_content_stable.
+
+Theorem region_read_is_creation : forall s h o l sd,
+  lookup (ah s) h = Some (OM o) -> nth_error (amem s) o = Some (l, sd) ->
+  snd (a_step s (AShmRead h)) = QShmRead l sd.
+Proof. intros s h o l sd Hl Hn. cbn [a_step]. rewrite Hl, Hn. reflexivity. Qed.
+Print Assumptions region_read_is_creation.
+
+(* ------------------------------------------------------------------------------------------ *)
+(* T5. disconnection                                                                            *)
+(* ------------------------------------------------------------------------------------------ *)
+Theorem recv_disconnected_iff : forall s h c,
+  lookup (ah s) h = Some (OR c) -> q (get_chan (ak s) c) = [] ->
+  (snd (a_step s (ARecv h)) = QDisconnected <-> refs (ak s) (RS c) = 0).
+Proof.
+  intros s h c Hl Hq. cbn [a_step]. rewrite Hl. unfold k_recv. rewrite Hq.
+  destruct (refs (ak s) (RS c) =? 0) eqn:E; cbn [snd].
+  - apply Nat.eqb_eq in E. tauto.
+  - apply Nat.eqb_neq in E. split; [discriminate|]. intros H. contradiction.
+Qed.
+Print Assumptions recv_disconnected_iff.
+
+(* ------------------------------------------------------------------------------------------ *)
+(* Examples                                                                                     *)
+(* ------------------------------------------------------------------------------------------ *)
+Definition ex_prog1 : list aop :=
+  [ ANew;                       (* 0 tx, 1 rx *)
+    ANew;                       (* 2 tx, 3 rx *)
+    ASetNew;                    (* 4 *)
+    ASetAdd 4 1;                (* member 0 *)
+    ASetAdd 4 3;                (* member 1 *)
+    AShm 16 7;                  (* 5 *)
+    ASend 0 10%Z [XMem 5];
+    ASend 2 (-1)%Z [XTx 0];
+    ASend 2 20%Z [];
+    ADrop 2;
+    ASelectAll 4;
+    AShmRead 6;
+    ASelectAll 4 ].
+Eval vm_compute in snd (a_run a_init ex_prog1).
+
+Definition ex_prog2 : list aop :=
+  [ AServer;                    (* 0 *)
+    AConnect 0;                 (* 1 tx to server *)
+    ANew;                       (* 2 tx, 3 rx *)
+    AShm 8 3;                   (* 4 *)
+    ASend 1 5%Z [XRx 3; XMem 4];
+    AAccept 0;                  (* 5 rx, 6 rx(of 3), 7 mem *)
+    AShmRead 7;
+    ASend 2 (-4)%Z [XMem 4];
+    ASend 2 9%Z [];
+    ARecv 6;
+    ARecv 6;
+    ADrop 2;
+    ARecv 6;
+    ARecv 5;
+    ADrop 1;
+    ARecv 5 ].
+Eval vm_compute in snd (a_run a_init ex_prog2).
